@@ -270,8 +270,10 @@ class ExtrasMixin:
             run.heap = cur
         return self.oldify(v)
 
-    def oldify(self, v):
+    def oldify(self, v, like=None):
         if isinstance(v, VRef) and v.kind != "lock":
+            if like is not None and like in self.run.alias_heap:
+                return self.run.old_view(v, self.run.alias_heap[like], f"view:{id(self.run.alias_heap[like])}")
             return self.run.old_view(v)
         if isinstance(v, VTuple):
             return VTuple([self.oldify(x) for x in v.items])
@@ -311,9 +313,12 @@ class ExtrasMixin:
         """value of a local variable at the head of the current (cut) loop iteration"""
         name = node.args[0].id if isinstance(node.args[0], ast.Name) else node.args[0].value
         heads = getattr(self, "loop_heads", [])
-        if not heads or name not in heads[-1]:
+        if not heads or name not in heads[-1][0]:
             raise E.Unsupported(f"at_head({name}) outside a cut loop")
-        return heads[-1][name]
+        v = heads[-1][0][name]
+        if isinstance(v, VRef) and v.kind != "lock":
+            return self.run.old_view(v, heads[-1][1], f"head{len(heads)}:{id(heads[-1][1])}")
+        return v
 
     def spec_gate_passed(self, node, frame):
         """some call (since the current loop iteration began) to a collaborator whose name ends with `suffix`
